@@ -46,7 +46,11 @@ def layout_variant(p, rng):
     segs = segments(p)
     if segs is None:
         return p
-    return "".join(t if k == "s" else re.sub(r"\s+", lambda m: rng.choice(FILL), t) for k, t in segs) + rng.choice(FILL)
+    def relayout(t):
+        # whitespace inside an existing comment is part of the comment: leave comments alone
+        parts = re.split(r"(/\*.*?\*/|#[^\n]*|//[^\n]*)", t, flags=re.S)
+        return "".join(x if i % 2 else re.sub(r"\s+", lambda m: rng.choice(FILL), x) for i, x in enumerate(parts))
+    return "".join(t if k == "s" else relayout(t) for k, t in segs) + rng.choice(FILL)
 
 
 def escape_variant(p, rng):
